@@ -165,6 +165,22 @@ func init() {
 			if !changed && x.pkg != "verifcanary" {
 				continue
 			}
+			// comments inside function bodies are dropped: go/printer places them by position, the inserted
+			// statements have none, and a comment in front of an instrumented statement would land in the
+			// middle of the inserted call (doc comments and directives outside bodies are kept)
+			var kept []*ast.CommentGroup
+			for _, cg := range x.f.Comments {
+				inside := false
+				for _, d := range x.f.Decls {
+					if fd, ok := d.(*ast.FuncDecl); ok && fd.Body != nil && cg.Pos() > fd.Body.Lbrace && cg.End() <= fd.Body.Rbrace {
+						inside = true
+					}
+				}
+				if !inside {
+					kept = append(kept, cg)
+				}
+			}
+			x.f.Comments = kept
 			var buf bytes.Buffer
 			if err := printer.Fprint(&buf, x.fset, x.f); err != nil {
 				return err
